@@ -5,9 +5,8 @@
 (***************************************************************************)
 EXTENDS EsdtFns
 
-MaxPayload == 8192      \* generous bound on a marshalled NFT payload (bytes)
-
-\* gas for copying the payloads; c.pl are independently measured payload lengths
+\* gas for copying the payloads; c.pl are the payload lengths, measured independently of the reported gas
+\* (from the emitted message / the destination's stored entry of a probe execution with ample gas)
 CopyGas(w, c) == Base(w, "DataCopyPerByte") * SumSeq(c.pl)
 
 ---------------------------------------------------------------------------
@@ -40,8 +39,7 @@ NFTTransferSender(w, c) ==
   IF ~r2.ok THEN Err(w) ELSE
   LET rem0 == c.gas - cost
       copy == CopyGas(w, c) IN
-  IF c.pl = <<>> /\ rem0 < Base(w, "DataCopyPerByte") * MaxPayload THEN Unk(w)
-  ELSE IF copy > rem0 THEN Err(w) ELSE
+  IF copy > rem0 THEN Err(w) ELSE
   LET rem == rem0 - copy
       scAfter == NA(c) > 4 /\ IsSC(dest)
       margs == <<A(c,1), A(c,2), A(c,3), PayArg(x)>> \o Drop(c.args, 4) IN
@@ -117,8 +115,7 @@ MultiSender(w, c) ==
   ELSE IF ~st.ok THEN Err(w) ELSE
   LET rem0 == c.gas - k * cost
       copy == CopyGas(w, c) IN
-  IF c.pl = <<>> /\ rem0 < Base(w, "DataCopyPerByte") * MaxPayload * k THEN Unk(w)
-  ELSE IF copy > rem0 THEN Err(w) ELSE
+  IF copy > rem0 THEN Err(w) ELSE
   LET rem == rem0 - copy
       margs == st.margs \o Drop(c.args, 3 * k + 2)
       scAfter == NA(c) > 3 * k + 2 /\ IsSC(dest) IN
